@@ -133,12 +133,21 @@ func H19b_dead_subscriber() {
 	vrtExchange(c, &specPkt{Typ: specSUBSCRIBE, ID: 1, Topics: [][]byte{[]byte("d")}, QoS: []byte{0}})
 	c.peerTake()
 	c.peerStall(100)
-	for i := 0; i < 3; i++ {
-		pub.peerSend(specEncode(vrtBigPublish("d", byte(i))))
+	selfFlood := vrtBool("floods_itself")
+	if selfFlood {
+		// the client published to its own subscription without reading: its own processor is stuck in its own ring
+		for i := 0; i < 4; i++ {
+			c.peerSend(specEncode(vrtBigPublish("d", byte(i))))
+		}
+		vrtQuiesce()
+	} else {
+		for i := 0; i < 3; i++ {
+			pub.peerSend(specEncode(vrtBigPublish("d", byte(i))))
+		}
+		pub.peerSend(specEncode(&specPkt{Typ: specPINGREQ}))
+		vrtQuiesce()
+		vrtAssert("C19.harness_publisher_held_up", len(pub.peerTake()) == 0)
 	}
-	pub.peerSend(specEncode(&specPkt{Typ: specPINGREQ}))
-	vrtQuiesce()
-	vrtAssert("C19.harness_publisher_held_up", len(pub.peerTake()) == 0)
 	if vrtBool("pings_before_dying") {
 		// its last sign of life: the answer cannot be queued (the blocked publisher holds the connection's write mutex)
 		c.peerSend(specEncode(&specPkt{Typ: specPINGREQ}))
@@ -153,7 +162,9 @@ func H19b_dead_subscriber() {
 	if len(got) == 1 {
 		vrtAssert("C19.will_published", vrtAnd(vrtBytesEq(got[0].Topic, []byte("gone")), vrtBytesEq(got[0].Payload, []byte("x"))))
 	}
-	vrtAssert("C19.publisher_answered_after_drop", vrtBytesEq(pub.peerTake(), []byte{0xD0, 0}))
+	if !selfFlood {
+		vrtAssert("C19.publisher_answered_after_drop", vrtBytesEq(pub.peerTake(), []byte{0xD0, 0}))
+	}
 	vrtReach("C19.dead_subscriber_dropped")
 }
 
